@@ -57,23 +57,23 @@ var (
 	tFloat  = &Type{Kind: KFloat, nsc: 1}
 	tDouble = &Type{Kind: KDouble, nsc: 1}
 
-	vecTypes [KDouble + 1][5]*Type
-	matTypes [KDouble + 1][5][5]*Type
+	vecTypes, matTypes = buildVecMatTypes()
 )
 
-func init() {
+func buildVecMatTypes() (vt [KDouble + 1][5]*Type, mt [KDouble + 1][5][5]*Type) {
 	for _, s := range []*Type{tBool, tInt, tUint, tFloat, tDouble} {
 		for n := 2; n <= 4; n++ {
-			vecTypes[s.Kind][n] = &Type{Kind: KVec, Elem: s, N: n, nsc: n}
+			vt[s.Kind][n] = &Type{Kind: KVec, Elem: s, N: n, nsc: n}
 		}
 	}
 	for _, s := range []*Type{tFloat, tDouble} {
 		for c := 2; c <= 4; c++ {
 			for r := 2; r <= 4; r++ {
-				matTypes[s.Kind][c][r] = &Type{Kind: KMat, Elem: s, Cols: c, Rows: r, nsc: c * r}
+				mt[s.Kind][c][r] = &Type{Kind: KMat, Elem: s, Cols: c, Rows: r, nsc: c * r}
 			}
 		}
 	}
+	return
 }
 
 // scalarType returns the scalar singleton for a scalar kind.
